@@ -6,7 +6,7 @@ treated as: result unknown, every `&mut` argument's pointee forgotten, no panic 
 panicking APIs are the ones listed here; cross-checked in the thorough tier against `# Panics` doc sections)."""
 import re
 
-from .absdom import FULL, TOP, iv_meet
+from .absdom import FULL, TOP, iv_meet, under, term_place
 from .absint import GOOD_VARIANT, LEN_MAX, PANIC_FN, is_mut_ref
 
 MODELS = []
@@ -1398,13 +1398,41 @@ def _range_next(c, fwd, incl):
             facts.append((pv, ("n", None, si[1] if hi_end is None else max(si[1], hi_end)), 0))
         if hi_end is not None:
             facts.append((pv, ("n", None, hi_end), 0))
-        # the iterator's own cursor moves: forget its alias, keep a sound interval
+        # the iterator's own cursor moves: forget its alias, keep a sound interval.  One state stands for both outcomes:
+        # the cursor is the old one (None) or the old one plus 1 (Some); the yielded value is the old cursor exactly.
         start_place = (pl[0], pl[1] + ("start",))
+        rel_up = [(y, c0) for (a, y), c0 in st.rel.items() if a == S and y != S]       # S - y <= c0
+        rel_lo = [(y, c0) for (y, b), c0 in st.rel.items() if b == S and y != S]       # y - S <= c0
+        old_alias = s_val if (s_val[1] is None or s_val[1] != S) else None
+        if old_alias is not None and old_alias[1] is not None and under(term_place(old_alias[1]), start_place):
+            old_alias = None
         st.kill(start_place)
-        st.set_iv(S, si[0], None if hi_end is None else hi_end + 1)
-        if ev is None or True:
-            pass
-        none_facts = []
+        hi_new = None if hi_end is None else hi_end + 1
+        if si[1] is not None:
+            hi_new = si[1] + 1 if hi_new is None else min(hi_new, si[1] + 1)
+        st.set_iv(S, si[0], hi_new)
+        S_val = ("n", S, 0)
+        none_facts = [(e_val, S_val, 0)] if not incl else []
+        facts.append((pv, S_val, -1))
+        facts.append((S_val, pv, 1))
+        if old_alias is not None:
+            # pv == old cursor;  old cursor <= S <= old cursor + 1
+            facts.append((pv, old_alias, 0))
+            facts.append((old_alias, pv, 0))
+            if old_alias[1] is not None:
+                st.add_le(S_val, old_alias, 1)
+                st.add_le(old_alias, S_val, 0)
+            none_facts.append((S_val, old_alias, 0))
+        else:
+            for y, c0 in rel_up:
+                if not under(term_place(y), start_place):
+                    facts.append((pv, ("n", y, 0), c0))
+                    st.rel[(S, y)] = c0 + 1
+                    none_facts.append((S_val, ("n", y, 0), c0))
+            for y, c0 in rel_lo:
+                if not under(term_place(y), start_place):
+                    facts.append((("n", y, 0), pv, c0))
+                    st.rel[(y, S)] = c0
         st.sym[d] = ("opt", "cond", ("conj", facts, none_facts), pv)
     else:
         facts = [(s_val, pv, 0), (pv, e_val, 0 if incl else -1)]
